@@ -6,6 +6,7 @@
 use ndarray::prelude::*;
 use ndarray_stats::histogram::{Bins, Edges, Grid};
 use ndarray_stats::Sort1dExt;
+use noisy_float::types::{n64, N64};
 use vharness::*;
 
 fn tracked(pattern: &[u8]) -> Vec<Tracked> {
@@ -550,6 +551,53 @@ fn run_partition(acc: &mut Acc, data: &[Tracked], p: usize, lay: Option<&Layout>
     true
 }
 
+/// post-condition of partition_mut on plain values (after-state given as a Vec)
+fn judge_partition_plain<T: Ord + Copy + std::fmt::Debug>(acc: &mut Acc, tname: &str, data: &[T], p: usize, res: Result<(usize, Vec<T>), String>) {
+    let fail = |acc: &mut Acc, monitor: &str, what: String| {
+        acc.violation(monitor, None, J::obj(vec![("op", J::s("partition_mut")), ("elem", J::s(tname)), ("input", J::s(format!("{:?}", data))), ("pivot_index", J::u(p)), ("what", J::s(what))]));
+    };
+    match res {
+        Err(m) => fail(acc, "no_panic_in_range", format!("in-range call panicked: {}", m)),
+        Ok((k, after)) => {
+            let pv = data[p];
+            let rank = data.iter().filter(|x| **x < pv).count();
+            let mut a = after.clone();
+            let mut b = data.to_vec();
+            a.sort();
+            b.sort();
+            if k != rank {
+                fail(acc, "rank", format!("returned {} but {} elements are smaller than the pivot value; after = {:?}", k, rank, after));
+            } else if k >= after.len() || after[k] != pv {
+                fail(acc, "pivot_position", format!("position k = {} does not hold the pivot value; after = {:?}", k, after));
+            } else if after[..k].iter().any(|x| *x >= pv) || after[k + 1..].iter().any(|x| *x < pv) {
+                fail(acc, "left_side", format!("sides not separated; after = {:?}", after));
+            } else if a != b {
+                fail(acc, "multiset", format!("multiset changed; after = {:?}", after));
+            }
+        }
+    }
+}
+
+fn part_generic<T: Ord + Copy + std::fmt::Debug + Elem>(acc: &mut Acc, data: &[T], p: usize, lay: Option<&Layout>, tname: &str) {
+    acc.eval();
+    let n = data.len();
+    let res = match lay {
+        None => {
+            let mut a = Array1::from(data.to_vec());
+            catch(|| a.partition_mut(p)).map(|k| (k, a.to_vec()))
+        }
+        Some(l) => {
+            let mut e = Embedded::new(&[n], data, l.clone());
+            let r = {
+                let mut v = e.view_mut().into_dimensionality::<Ix1>().unwrap();
+                catch(|| v.partition_mut(p))
+            };
+            r.map(|k| (k, e.logical_now()))
+        }
+    };
+    judge_partition_plain(acc, tname, data, p, res);
+}
+
 // ---------------------------------------------------------------------------
 // out-of-range observation
 // ---------------------------------------------------------------------------
@@ -729,6 +777,45 @@ fn main() {
                 ])
             });
         });
+        // other element types: plain integers, N64, the NotNone wrapper handed out for Option<T> lanes, zero-sized
+        r.section("part_types", r.args.n(12_000, 400_000), |k, rng, acc| {
+            let n = 1 + rng.below(12);
+            let alpha = *rng.pick(&[1i64, 2, 3, 6, 50]);
+            let vals: Vec<i64> = (0..n).map(|_| rng.range(0, alpha)).collect();
+            let p = rng.below(n);
+            let lay = random_layout1(rng);
+            match k % 5 {
+                0 => part_generic::<i32>(acc, &vals.iter().map(|&v| v as i32 - 2).collect::<Vec<_>>(), p, lay.as_ref(), "i32"),
+                1 => part_generic::<N64>(acc, &vals.iter().map(|&v| n64(v as f64 * 0.5)).collect::<Vec<_>>(), p, lay.as_ref(), "N64"),
+                2 => part_generic::<u8>(acc, &vals.iter().map(|&v| v as u8).collect::<Vec<_>>(), p, lay.as_ref(), "u8"),
+                3 => {
+                    // NotNone<i32>: obtained the way users get it, from remove_nan_mut on an Option<i32> lane
+                    let mut opt: Vec<Option<i32>> = vals.iter().map(|&v| Some(v as i32)).collect();
+                    let mut e = Embedded::new(&[n], &opt, lay.clone().unwrap_or(Layout::canonical(1)));
+                    let before = vals.clone();
+                    acc.eval();
+                    let res = {
+                        let v = e.view_mut().into_dimensionality::<Ix1>().unwrap();
+                        let mut nn = <Option<i32> as ndarray_stats::MaybeNan>::remove_nan_mut(v);
+                        let r = catch(|| nn.partition_mut(p));
+                        r.map(|k| (k, nn.iter().map(|x| **x).collect::<Vec<i32>>()))
+                    };
+                    opt.clear();
+                    judge_partition_plain(acc, "NotNone<i32>", &before.iter().map(|&v| v as i32).collect::<Vec<_>>(), p, res);
+                }
+                _ => {
+                    // zero-sized elements: all equal, so the rank of any pivot is 0
+                    let mut a: Array1<()> = Array1::from(vec![(); n]);
+                    acc.eval();
+                    match catch(|| a.partition_mut(p)) {
+                        Ok(0) => {}
+                        other => acc.violation("rank", None, J::obj(vec![("op", J::s("partition_mut")), ("elem", J::s("() (zero-sized)")), ("n", J::u(n)), ("pivot_index", J::u(p)), ("what", J::s(format!("returned {:?}, but no element is smaller than the pivot value", other)))])),
+                    }
+                }
+            }
+            acc.nontrivial(h64(&(k % 5, &vals, p, &lay)));
+            acc.count(&format!("elem_kind_{}", k % 5));
+        });
         r.section("part_random", r.args.n(30_000, 1_000_000), |_k, rng, acc| {
             let n = if rng.chance(0.1) { 1 + rng.below(500) } else { 1 + rng.below(50) };
             let pat = random_lane(rng, n);
@@ -902,6 +989,56 @@ fn main() {
                     }
                 }
             }
+        });
+        // (d2) call histories on one thread: a request accepted for a longer array must still be rejected for a
+        // shorter one (no decision may be carried over from a previous call), and vice versa
+        r.section("oob_history", r.args.n(4_000, 100_000), |_k, rng, acc| {
+            let n1 = 2 + rng.below(9);
+            let n2 = rng.below(n1); // shorter, possibly empty
+            let m = 1 + rng.below(4);
+            let mut req: Vec<usize> = (0..m).map(|_| rng.below(n1)).collect();
+            // make sure some member is out of range for the shorter array
+            let j = rng.below(m);
+            req[j] = n2 + rng.below(n1 - n2);
+            let reqa = Array1::from(req.clone());
+            let long: Vec<Tracked> = (0..n1).map(|i| Tracked { key: rng.below(4) as u8, id: i as u16 }).collect();
+            let short: Vec<Tracked> = long[..n2].to_vec();
+            set_pivots(random_policy(rng));
+            for round in 0..2 {
+                // accepted call on the long array ...
+                let mut a = Array1::from(long.clone());
+                acc.eval();
+                if catch(|| a.get_many_from_sorted_mut(&reqa)).is_err() {
+                    acc.violation("no_panic_in_range", None, J::obj(vec![("op", J::s("get_many_from_sorted_mut")), ("n", J::u(n1)), ("request", J::us(&req)), ("what", J::s("in-range request panicked"))]));
+                    return;
+                }
+                // ... then the identical request on a shorter array must panic
+                let mut b = Array1::from(short.clone());
+                if !must_panic(acc, "get_many_from_sorted_mut (after the same request was accepted for a longer array)", || J::obj(vec![("long_n", J::u(n1)), ("short_n", J::u(n2)), ("request", J::us(&req)), ("round", J::u(round))]), || b.get_many_from_sorted_mut(&reqa)) {
+                    return;
+                }
+                // single selection likewise
+                let i = req[j];
+                let mut a = Array1::from(long.clone());
+                acc.eval();
+                if catch(|| a.get_from_sorted_mut(i)).is_err() {
+                    acc.violation("no_panic_in_range", None, J::obj(vec![("op", J::s("get_from_sorted_mut")), ("n", J::u(n1)), ("i", J::u(i))]));
+                    return;
+                }
+                let mut b = Array1::from(short.clone());
+                if !must_panic(acc, "get_from_sorted_mut (after the same index was accepted for a longer array)", || J::obj(vec![("long_n", J::u(n1)), ("short_n", J::u(n2)), ("i", J::u(i))]), || b.get_from_sorted_mut(i)) {
+                    return;
+                }
+            }
+            // empty request on an empty array is in range (nothing is out of range): must not panic
+            let mut e: Array1<Tracked> = Array1::from(Vec::<Tracked>::new());
+            let none: Array1<usize> = Array1::from(Vec::<usize>::new());
+            acc.eval();
+            match catch(|| e.get_many_from_sorted_mut(&none)) {
+                Ok(m) if m.is_empty() => {}
+                other => acc.violation("no_panic_in_range", None, J::obj(vec![("op", J::s("get_many_from_sorted_mut(empty request) on an empty array")), ("what", J::s(format!("{:?}", other.map(|m| m.len()))))])),
+            }
+            acc.nontrivial(h64(&(n1, n2, &req)));
         });
         // (e) in-range never panics: replay of the C02 / C15 exhaustive workloads, unwind bit only
         let pats_in = patterns(1, if thorough { 7 } else { 6 });
